@@ -151,9 +151,9 @@ Proof. intro H. rewrite Rabs_left by lra. field. lra. Qed.
 
 Lemma var_x_aff a b xs : var_x (map (aff a b) xs) = a * a * var_x xs.
 Proof. unfold var_x. rewrite map_length, Sx_aff, Sx2_aff. ring. Qed.
-Lemma var_y_aff a b xs ys : var_y xs (map (aff a b) ys) = a * a * var_y xs ys.
-Proof.
-  unfold var_y. rewrite Sy2_eq_Sx2, Sx_aff, Sx2_aff. Abort.
+Lemma var_y_aff a b xs ys : length xs = length ys ->
+  var_y xs (map (aff a b) ys) = a * a * var_y xs ys.
+Proof. intro Hl. unfold var_y. change Sy2 with Sx2. rewrite Sx_aff, Sx2_aff, <- Hl. ring. Qed.
 
 Theorem correlation_rescale_x xs ys a b : length xs = length ys -> 0 < var_x xs -> 0 < var_y xs ys ->
   a <> 0 ->
@@ -173,8 +173,7 @@ Theorem correlation_rescale_y xs ys a b : length xs = length ys -> 0 < var_x xs 
   CurveFitting_correlation_coeff Rops (cf_of xs (map (aff a b) ys)) = VFloat (a / Rabs a * r_of xs ys).
 Proof.
   intros Hl Hx Hy Ha.
-  assert (Ey : var_y xs (map (aff a b) ys) = a * a * var_y xs ys).
-  { unfold var_y. change Sy2 with Sx2. rewrite Sx_aff, Sx2_aff, <- Hl. ring. }
+  assert (Ey := var_y_aff a b xs ys Hl).
   rewrite correlation_value.
   - unfold r_of. change Sy2 with Sx2. rewrite Sx_aff, Sx2_aff, (Sxy_aff_r a b xs ys Hl), <- Hl.
     f_equal. apply corr_r_scale_y; assumption.
@@ -417,3 +416,59 @@ Proof.
   intros call i0 i1 i2 e0 e1 e2 g0 g1 g2 H0 H1 H2 p l l' Hp Hc. unfold cf_of.
   exact (general_permutation_invariance call i0 i1 i2 e0 e1 e2 g0 g1 g2 H0 H1 H2 p l l' _ _ _ _ _ _ _ _ _ _ _ _ _ _ _ _ _ _ Hp Hc).
 Qed.
+
+
+(* ------------------------------------------- non-vacuity of the hypotheses about [call] *)
+(* a concrete interpretation of function values in the ideal instance: the ids of the menu
+   vlib/basis.py for null, one, x, x^2 (what B64.b64_basis_call does in binary64) *)
+Definition menu_call (f : val R) (args : list (val R)) : val R :=
+  match f, args with
+  | VFun 1 _, [VFloat _] => VFloat 0
+  | VFun 2 _, [VFloat _] => VFloat 1
+  | VFun 3 _, [VFloat x] => VFloat x
+  | VFun 4 _, [VFloat x] => VFloat (x * x)
+  | _, _ => VErr Unsupported
+  end.
+
+Lemma menu_call_ok :
+  (forall x, menu_call (VFun 4 []) [VFloat x] = VFloat (x * x))
+  /\ (forall x, menu_call (VFun 3 []) [VFloat x] = VFloat x)
+  /\ (forall x, menu_call (VFun 2 []) [VFloat x] = VFloat 1)
+  /\ (forall x, menu_call (VFun 1 []) [VFloat x] = VFloat 0).
+Proof. repeat split; intro x; reflexivity. Qed.
+
+(* the two comparison theorems instantiated with it: no hypothesis about [call] is left *)
+Theorem menu_general_eq_quadratic x xs y ys : length xs = length ys ->
+  let X := x :: xs in let Y := y :: ys in
+  TOL <= Rabs (quad_det (nR X) (Sx X) (Sx2 X) (Sx3 X) (Sx4 X)) ->
+  TOL <= Rabs (Sx4 X * Sx2 X * nR X) ->
+  exists a b c,
+    CurveFitting_quadratic_fitting Rops (cf_of X Y) = VTuple [VFloat a; VFloat b; VFloat c]
+    /\ CurveFitting_general_fitting (RopsC menu_call) (cf_of X Y) (VFun 4 []) (VFun 3 []) (VFun 2 [])
+       = VTuple [VFloat a; VFloat b; VFloat c].
+Proof.
+  destruct menu_call_ok as (M4 & M3 & M2 & M1).
+  exact (general_eq_quadratic menu_call 4 3 2 [] [] [] M4 M3 M2 x xs y ys).
+Qed.
+
+Theorem menu_general_eq_linear x xs y ys : length xs = length ys ->
+  let X := x :: xs in let Y := y :: ys in
+  TOL <= Rabs (lin_det (nR X) (Sx X) (Sx2 X)) -> TOL <= Sx2 X ->
+  exists a b,
+    CurveFitting_linear_fitting Rops (cf_of X Y) = VTuple [VFloat a; VFloat b]
+    /\ CurveFitting_general_fitting (RopsC menu_call) (cf_of X Y) (VFun 3 []) (VFun 2 []) (VFun 1 [])
+       = VTuple [VFloat a; VFloat b; VFloat zero_lit].
+Proof.
+  destruct menu_call_ok as (M4 & M3 & M2 & M1).
+  exact (general_eq_linear menu_call 3 2 1 [] [] [] M3 M2 M1 x xs y ys).
+Qed.
+
+(* and a concrete data set on which the guard hypothesis holds: (0,1), (1,3), (2,5) on y = 2x + 1 *)
+Example guard_satisfiable : TOL <= Rabs (lin_det (nR [0; 1; 2]) (Sx [0; 1; 2]) (Sx2 [0; 1; 2])).
+Proof.
+  unfold lin_det, nR, Sx, Sx2, sum1, fsum, TOL. simpl. Rlit_norm.
+  rewrite Rabs_right; lra.
+Qed.
+Example linear_concrete :
+  CurveFitting_linear_fitting Rops (cf_of [0; 1; 2] (map (aff 2 1) [0; 1; 2])) = VTuple [VFloat 2; VFloat 1].
+Proof. exact (linear_recovers [0; 1; 2] 2 1 guard_satisfiable). Qed.
